@@ -447,6 +447,31 @@ def _derived_blocks(ck, prog):
             kws.get('initdef', '').replace(' ', '') == "'valid'ifhas_init_valueelse'expired'"
         hv = [x for x in own_nodes(ii.node) if isinstance(x, ast.Assign) and norm(x.targets[0]) == 'has_init_value']
         ok = ok and len(hv) == 1 and norm(hv[0].value) in ('initdef is not block.UNDEF',)
+    if not ok:
+        # layout-independent decision: abstract run of the constructor with a recording parent
+        try:
+            from sa.minieval import MiniEval
+            good = True
+            a_ = ii.node.args
+            for given in (False, True):
+                rec = []
+                sd = {}
+                env = {'duration': 'DUR', 'expired': 'EXP', 'initdef': 'INIT' if given else 'UNDEF',
+                       'block.UNDEF': 'UNDEF', 'UNDEF': 'UNDEF', 'self.sdata': sd,
+                       'self._validate': lambda v: ('VALIDATED', v),
+                       'super().__init__': lambda *aa, rec=rec, **kk: rec.append(kk)}
+                if a_.vararg:
+                    env[a_.vararg.arg] = ()
+                if a_.kwarg:
+                    env[a_.kwarg.arg] = {}
+                res = MiniEval(R, env).run(ii.node.body)
+                ck.abstract_cases += 1
+                good = good and res[0] == 'return' and len(rec) == 1 and rec[0].get('t_valid') == 'DUR' and \
+                    rec[0].get('initdef') == ('valid' if given else 'expired') and \
+                    sd == ({'input': ('VALIDATED', 'INIT')} if given else {})
+            ok = good
+        except Exception:
+            ok = False
     ck.ob(R, f"{ii.fid} :: duration and initial state", ok,
           "duration becomes t_valid; the FSM starts 'valid' iff an initial value is given" if ok
           else "InputExp does not map duration to t_valid / does not start in 'valid' exactly when "
